@@ -1634,6 +1634,9 @@ func injectedErr(fault string) error {
 		return fmt.Errorf("sim: lookup: %w", sql.ErrNoRows)
 	case "err_eof":
 		return io.ErrUnexpectedEOF
+	case "err_text":
+		// what a driver's message can look like: quotes, markup characters, an ampersand, terminal colour escapes, a NUL, Latin-1 bytes
+		return errors.New("sim: \x1b[31mFATAL\x1b[0m: connection to \"db\" <primary> failed (dsn='host=db&sslmode=disable') caf\xe9 \x00 ]]>")
 	}
 	return errInjected
 }
@@ -1657,7 +1660,7 @@ func normFault(op, fault string) string {
 	switch fault {
 	case "", "none":
 		return ""
-	case "err", "abandoned", "err_canceled", "err_deadline", "err_notfound", "err_eof":
+	case "err", "abandoned", "err_canceled", "err_deadline", "err_notfound", "err_eof", "err_text":
 		return fault
 	}
 	if (op == "SetUserinfoWithUserID" || op == "SetUserinfoWithLoginName") && fault == "partial_err" {
@@ -1685,7 +1688,7 @@ func (s *simStorage) GetCA(ctx context.Context) (*key.CertificateAndKey, error) 
 
 func (s *simStorage) keyResult(rec *CallRec, fault string, kp *KeyPair) (*key.CertificateAndKey, error) {
 	switch fault {
-	case "err", "abandoned", "err_canceled", "err_deadline", "err_notfound", "err_eof":
+	case "err", "abandoned", "err_canceled", "err_deadline", "err_notfound", "err_eof", "err_text":
 		rec.Err = injectedErr(fault).Error()
 		return nil, injectedErr(fault)
 	case "nil_record":
